@@ -62,6 +62,37 @@ POOL = [
 ]
 
 
+# pairs of different expressions whose texts differ only in characters that
+# are not letters, digits or '_' (whatever an implementation derives from
+# the text of an expression must keep them apart)
+TWINS = [
+    ("len(str(A)) - 1", "len(str(A)) + 1"),
+    ("str(A) < str(B)", "str(A) > str(B)"),
+    ("str(A) == str(B)", "str(A) != str(B)"),
+    ("[A, B][0]", "(A, B)[0]"),
+    ("'a-b'", "'a+b'"),
+    ("'a b'", "'a.b'"),
+    ("1 + 1", "1 * 1"),
+]
+
+
+def twins(names=("a", "b"), exclude=()):
+    """Strategy: a pair of such expressions (same variables in both)."""
+    def build(t, x, y):
+        out = []
+        for tpl in t:
+            src = tpl.replace("A", "\0").replace("B", "\1")
+            src = src.replace("\0", x).replace("\1", y)
+            tags = [tag for tag, ch in (("lt", "<"), ("gt", ">"))
+                    if ch in src]
+            out.append({"src": src, "tags": tags})
+        return out
+    pool = [t for t in TWINS if not (
+        set(exclude) & {"lt", "gt"} and any(c in "".join(t) for c in "<>"))]
+    return st.builds(build, st.sampled_from(pool), st.sampled_from(names),
+                     st.sampled_from(names))
+
+
 def exprs(names=("a", "b"), exclude=()):
     """Strategy: {"src": ..., "tags": [...]}"""
     pool = [(t, tags) for (t, tags) in POOL
